@@ -226,5 +226,6 @@ func appendArrayElemIndent(ctx *encoder.RuntimeContext, code *encoder.Opcode, b 
 }
 
 func appendMapKeyIndent(ctx *encoder.RuntimeContext, code *encoder.Opcode, b []byte) []byte {
-	return appendIndent(ctx, b, code.Indent)
+	// the members of a map stand one level below its braces ( as appendMapKeyValue writes them for a sorted map )
+	return appendIndent(ctx, b, code.Indent+1)
 }
